@@ -11,6 +11,7 @@ U10C = ("u10_typed_trace", {"which": "cache"})
 
 U5 = ("u5_parser", {})
 U6M = ("u6_mapper_step", {})
+U6W = ("u6_writer_step", {})
 U8 = ("u8_writer_tail", {})
 U9 = ("u9_selftest", {})
 U3 = ("u3_interpretation", {})
@@ -26,7 +27,7 @@ BUILDERS_ASSUMED = ("of the two builder loops (ProguardMapper::create_proguard_m
 PROPS = {
     "C01": {
         "title": "Line-based retrace returns exactly the recorded call stack",
-        "units": [U1F, U2F, U3, U6M],
+        "units": [U1F, U2F, U3, U6M, U6W],
         "kani": [],
         "technique": "Verus (Z3) function contracts on mechanically extracted reader code: iterate_with_lines/next == head of spec retrace(); remap_frame == exact entry block",
         "level_text": "Deductive proof, for all field values / slice lengths / iterations, that both readers' frame iterators yield exactly "
@@ -41,7 +42,7 @@ PROPS = {
     },
     "C02": {
         "title": "A cache written from a mapping answers every query exactly like the mapper",
-        "units": [U1F, U2F, U8, U3, U6M],
+        "units": [U1F, U2F, U8, U3, U6M, U6W],
         "kani": [],
         "technique": "refinement: both readers proved (Verus) against the SAME spec functions retrace/by_params/unanimous through abs_member / abs_mm",
         "level_text": "Both readers are verified against one shared abstract model, so equal abstract entries give equal answers for remap_class, "
@@ -52,7 +53,7 @@ PROPS = {
     },
     "C03": {
         "title": "Parameter-based retrace",
-        "units": [U1F, U2F, U8, U6M],
+        "units": [U1F, U2F, U8, U6M, U6W],
         "kani": [],
         "technique": "Verus contracts: iterate_without_lines == head of by_params(); remap_frame(by params) == exact (name, params) block",
         "level_text": "Proof that a frame carrying parameters is answered from exactly the entries whose (obfuscated name, params) match, one frame "
@@ -62,7 +63,7 @@ PROPS = {
     },
     "C04": {
         "title": "Class lookup exact; method lookup never guesses",
-        "units": [U1F, U2F, U6M],
+        "units": [U1F, U2F, U6M, U6W],
         "kani": [],
         "technique": "Verus contracts on get_class / remap_class / remap_method (iff-unanimous postcondition), both readers",
         "level_text": "Proof that remap_class answers iff a class with exactly that obfuscated name exists, and remap_method answers (class, m) iff "
@@ -119,7 +120,7 @@ PROPS = {
     },
     "C09": {
         "title": "Written cache files conform to the documented layout and ordering invariants",
-        "units": [U8, U9],
+        "units": [U8, U9, U6W],
         "kani": ["k1_header_layout", "k1_class_layout", "k1_member_layout", "k2_format_constants"],
         "technique": "Verus proof that the writer tail emits exactly canonical() = the documented v1 layout (header, padded sections, tiling class ranges); Kani (complete, loop-free) for record byte layouts and constants",
         "level_text": "The part of ProguardCache::write after the record-collection loop is proved to deliver exactly canonical(classes, strings): "
@@ -204,7 +205,7 @@ PROPS = {
     },
     "C13": {
         "title": "No mapping bytes and no query can make the library panic or overflow",
-        "units": [U2S, U5, U7, U10M, U3, U8, U9, U6M],
+        "units": [U2S, U5, U7, U10M, U3, U8, U9, U6M, U6W, U1S, U4, U10C],
         "kani": ["k3_java_base_types"],
         "technique": "Verus implicit obligations on the mapper reader with NO precondition on entry values",
         "level_text": "The mapper's reader functions are verified with arbitrary usize entry values and any frame: no overflow, no out-of-bounds, termination.",
